@@ -507,6 +507,17 @@ func Go(fn func()) {
 	go threadMain(t)
 }
 
+// FilterRecover wraps every recover() of the code under test: the sentinel panic with which
+// the scheduler unwinds the threads of an abandoned execution is not for that code to catch.
+//
+//go:norace
+func FilterRecover(r any) any {
+	if _, ok := r.(abortSentinel); ok {
+		panic(r)
+	}
+	return r
+}
+
 // ExecPoint is inserted at the top of execext.RunCommand: running a shell command takes time,
 // so other threads may run before it (dynamic variables, status and precondition commands have
 // no other hooked operation inside). Commands whose output goes straight to a harness probe
